@@ -1,5 +1,6 @@
 """The configuration for the myst parser."""
 
+import copy
 import dataclasses as dc
 from collections.abc import Callable, Iterable, Iterator, Sequence
 from importlib import import_module
@@ -496,12 +497,17 @@ class MdParserConfig:
 
     def as_dict(self, dict_factory=dict) -> dict:
         """Return a dictionary of field name -> value."""
-        return dc.asdict(self, dict_factory=dict_factory)
+        # (the values are copied, as ``dataclasses.asdict`` would do, but not rebuilt:
+        # ``asdict`` fails for e.g. a namedtuple subclass with its own ``__new__``,
+        # such as ``platform.uname()`` given as a substitution value)
+        return dict_factory(
+            [(f.name, copy.deepcopy(getattr(self, f.name))) for f in dc.fields(self)]
+        )
 
     def as_triple(self) -> Iterable[tuple[str, Any, dc.Field]]:
         """Yield triples of (name, value, field)."""
         fields = {f.name: f for f in dc.fields(self.__class__)}
-        for name, value in dc.asdict(self).items():
+        for name, value in self.as_dict().items():
             yield name, value, fields[name]
 
 
